@@ -12,6 +12,7 @@ import (
 	"fmt"
 	"os"
 	"path/filepath"
+	"runtime/pprof"
 	"sort"
 	"strconv"
 	"strings"
@@ -101,6 +102,11 @@ func cmdRun(args []string) int {
 	}
 	fs.Parse(args)
 	t0 := time.Now()
+	if pf := os.Getenv("VX_CPUPROFILE"); pf != "" {
+		f, _ := os.Create(pf)
+		pprof.StartCPUProfile(f)
+		defer pprof.StopCPUProfile()
+	}
 	p, err := loadProgram()
 	if err != nil {
 		fmt.Fprintln(os.Stderr, "load:", err)
